@@ -80,14 +80,14 @@ func (prog *Program) VerifyFunc(ct *Contract, opts Options) (res *UnitResult) {
 	// requires
 	for i := range ct.Requires {
 		c := ct.Requires[i]
-		pc = And(pc, x.evalClause(env, &c))
+		pc = And(pc, x.evalClause(env, &c), x.takePending())
 	}
 	if ct.Bounded > 0 {
 		x.bounded = true
 		x.unrollMax = ct.Bounded
 		for i := range ct.Sizes {
 			c := ct.Sizes[i]
-			pc = And(pc, x.evalClause(env, &c))
+			pc = And(pc, x.evalClause(env, &c), x.takePending())
 		}
 	}
 	pc = vc.Def("pre", "Bool", pc)
@@ -116,8 +116,18 @@ func (prog *Program) VerifyFunc(ct *Contract, opts Options) (res *UnitResult) {
 	pos := prog.pos(fn.Pos())
 	for i := range ct.Ensures {
 		c := ct.Ensures[i]
-		t := x.evalClause(post, &c)
-		f.assertNoAssume("ensures."+clauseName(&c, i), "postcondition: "+c.Text, t, &c, pos)
+		parts := SplitConj(c.Expr)
+		for j, pe := range parts {
+			pc := c
+			pc.Expr = pe
+			name := "ensures." + clauseName(&c, i)
+			if len(parts) > 1 {
+				name = fmt.Sprintf("%s.%d", name, j+1)
+				pc.Text = SpecString(pe)
+			}
+			t := x.evalClause(post, &pc)
+			f.assertNoAssume(name, "postcondition: "+pc.Text, t, &pc, pos)
+		}
 	}
 	// frame: everything outside the modifies clause is unchanged
 	if !ct.ModAll {
@@ -151,6 +161,7 @@ func tupleOf(sig *types.Signature, v Val) Val {
 }
 
 func (f *frame) assertNoAssume(kind, desc, goal string, cl *Clause, pos string) {
+	f.flush()
 	x := f.x
 	o := &Obligation{Name: x.oblName(kind), Kind: strings.SplitN(kind, ".", 2)[0], Desc: desc, Hyp: f.cur, Goal: goal, Pos: pos, Abstr: x.abstracted, Bounded: x.bounded}
 	if x.top != nil {
@@ -196,11 +207,12 @@ func (prog *Program) VerifyLemma(lm *Lemma) (res *UnitResult) {
 		hyp = And(hyp, x.heap.valAssume(st, val))
 	}
 	for i := range lm.Hyps {
-		hyp = And(hyp, x.evalClause(env, &lm.Hyps[i]))
+		hyp = And(hyp, x.evalClause(env, &lm.Hyps[i]), x.takePending())
 	}
 	hyp = vc.Def("hyp", "Bool", hyp)
 	vc.AddObl(&Obligation{Name: vc.Unit + "#cover.hyp", Kind: "cover", Desc: "lemma hypotheses are satisfiable", Hyp: "true", Goal: hyp, Cover: true, Props: lm.Props})
 	goal := x.evalClause(env, &lm.Goal)
+	hyp = And(hyp, x.takePending())
 	vc.AddObl(&Obligation{Name: vc.Unit + "#goal", Kind: "lemma", Desc: "lemma: " + lm.Goal.Text, Hyp: hyp, Goal: goal, Props: lm.Props, KF: lm.Goal.KF})
 	return res
 }
